@@ -1,4 +1,7 @@
+#[cfg(not(aquatic_verif))]
 use std::fs::File;
+#[cfg(aquatic_verif)]
+use aquatic_verif_rt::fs::File;
 use std::io::BufWriter;
 use std::io::Write;
 use std::iter::repeat_with;
@@ -19,7 +22,10 @@ use arrayvec::ArrayVec;
 use crossbeam_channel::Sender;
 use hashbrown::HashMap;
 use hdrhistogram::Histogram;
+#[cfg(not(aquatic_verif))]
 use parking_lot::RwLockUpgradableReadGuard;
+#[cfg(aquatic_verif)]
+use aquatic_verif_rt::sync::RwLockUpgradableReadGuard;
 use rand::prelude::SmallRng;
 use rand::{Rng, RngExt};
 
@@ -29,7 +35,10 @@ use crate::config::Config;
 const SMALL_PEER_MAP_CAPACITY: usize = 2;
 
 use aquatic_udp_protocol::InfoHash;
+#[cfg(not(aquatic_verif))]
 use parking_lot::RwLock;
+#[cfg(aquatic_verif)]
+use aquatic_verif_rt::sync::RwLock;
 
 #[derive(Clone)]
 pub struct TorrentMaps {
